@@ -12,7 +12,7 @@ from harness import build, world, clock
 PROPERTY = 'C20'
 LEVEL = 'fault_enumeration'
 RULE = ('fault mode {exit 1 silent / with error text, exit 0 empty, exit 2 usage, truncated "O", OK followed by text on the same line, FAIL (exit 1 / exit 0), garbled bytes (incl. 6 byte strings that collapse to a bare OK line when undecodable bytes are dropped / replaced / stripped), '
-        '"NOT OK", OK inside other words, lower-case ok, SIGKILL / SIGSEGV / SIGTERM before output, signal after doing the work, no output file, empty output file, partial output, '
+        '"NOT OK", OK inside other words, OK set off inside one line by CR / VT / FF / RS / NEL / LINE SEPARATOR (error exit), lower-case ok, SIGKILL / SIGSEGV / SIGTERM before output, signal after doing the work, no output file, empty output file, partial output, '
         'binary not startable} x site {response verify, assertion verify, both, request verify, metadata verify, response sign, assertion sign, request sign, encrypt, decrypt first key, '
         'decrypt second key} x position {first, second, every invocation of that command in the operation} x document {valid, signature-corrupted}; enumerated in full, real subprocesses. '
         'Non-trivial = the wrapper log shows the fault hit an invocation; distinct = distinct table row.')
@@ -25,7 +25,7 @@ NOW = 1700000000
 IDP = 'https://idp.verif.example/idp'
 SP = 'https://sp.verif.example/sp'
 ACS = 'https://sp.verif.example/acs/post'
-VERIFY_MODES = ['garbled-invalid-utf8-around-ok', 'garbled-invalid-utf8-inside-ok', 'garbled-latin1-nbsp-ok', 'garbled-utf16-ok', 'garbled-nul-ok', 'garbled-invalid-line-then-ok-fragment', 'exit1-silent', 'exit1-error-text', 'exit0-empty', 'exit2-usage', 'truncated-O', 'ok-same-line-junk', 'fail-line', 'fail-exit0', 'garbled', 'not-ok', 'xOKx', 'ok-lowercase',
+VERIFY_MODES = ['ok-between-cr', 'ok-between-vt', 'ok-between-ff', 'ok-between-rs', 'ok-between-nel', 'ok-between-ls', 'garbled-invalid-utf8-around-ok', 'garbled-invalid-utf8-inside-ok', 'garbled-latin1-nbsp-ok', 'garbled-utf16-ok', 'garbled-nul-ok', 'garbled-invalid-line-then-ok-fragment', 'exit1-silent', 'exit1-error-text', 'exit0-empty', 'exit2-usage', 'truncated-O', 'ok-same-line-junk', 'fail-line', 'fail-exit0', 'garbled', 'not-ok', 'xOKx', 'ok-lowercase',
                 'sigkill', 'sigsegv', 'sigterm', 'sigkill-after', 'sigterm-after-partial-ok', 'not-startable']
 OUTPUT_MODES = ['exit1-silent', 'exit1-error-text', 'exit0-empty', 'exit2-usage', 'garbled', 'sigkill', 'sigsegv', 'sigterm', 'sigkill-after', 'no-output-file', 'empty-output-exit1', 'not-startable']
 DECRYPT_MODES = OUTPUT_MODES + ['partial-output']
